@@ -1497,6 +1497,7 @@ func runC06(c *Ctx) {
 	checkDictLookupsOnCleanWord(c, p)
 	checkTokenizerCallArgsAgree(c, p)
 	checkRejectedCandidateHasNoEffect(c, p)
+	checkMidLineNotNotice(c, p)
 	// shared with C11: a notice is recognised on the cleaned-up form of its line as well, for every line (R11.10)
 	checkNoticeDecisionOnCleanedLine(c, p)
 	// shared with C03: an inserted notice is reported on exactly its line only if its pseudo-match is built once and
@@ -6484,5 +6485,59 @@ func checkRejectedCandidateHasNoEffect(c *Ctx, p *core.Prog) {
 			c.R.Check(bad == "", "R06.20", core.ShortFn(fn)+": a candidate changes the verdict on earlier candidates only if it is kept itself", p.Pos(fn.Pos()), fmt.Sprintf("%d stores into the retain flags of other candidates, each behind the current candidate's own verdict", len(others)),
 				"the retain flag of another candidate is written at "+bad+" before (or regardless of) the verdict on the current one: a candidate that is rejected still strikes out what it overlaps - an inserted notice vanishes although the match that is reported does not cover its line")
 		}
+	}
+}
+
+// checkMidLineNotNotice: R06.22. The notice patterns are anchored at the start of a line. The words behind the remainder of a
+// hyphen-split word reach the function that applies them as a buffer of their own, together with the position of their first
+// word in the line (the integer that is added to the loop index for cleanupToken): a buffer whose first word does not start
+// its line is text, whatever it begins with. Fails on the pinned tree (known finding D56): the position is ignored, so
+// `... the no-\ntice Copyright 1999 Jane Doe in all copies` loses seven words and gains a Copyright match.
+func checkMidLineNotNotice(c *Ctx, p *core.Prog) {
+	ct := p.Func(v2pkg, "cleanupToken")
+	if ct == nil {
+		return
+	}
+	for _, fn := range v2Funcs(p) {
+		var pos *ssa.Parameter
+		for _, call := range core.CallsIn(fn) {
+			if call.Common().StaticCallee() != ct {
+				continue
+			}
+			if bo, ok := core.Unspill(call.Common().Args[0]).(*ssa.BinOp); ok && bo.Op == token.ADD {
+				for _, o := range []ssa.Value{bo.X, bo.Y} {
+					if prm, isPrm := core.Unspill(o).(*ssa.Parameter); isPrm {
+						pos = prm
+					}
+				}
+			}
+		}
+		if pos == nil {
+			continue
+		}
+		nT, unguarded := 0, ""
+		for _, call := range core.CallsIn(fn) {
+			n := core.StaticCalleeName(call.Common())
+			if n != "(*regexp.Regexp).MatchString" && n != "(*regexp.Regexp).Match" {
+				continue
+			}
+			nT++
+			ok := false
+			for _, f := range core.FactsAt(call.Block()) {
+				if cmp, isCmp := f.AsCmp(); isCmp {
+					if (core.Unspill(cmp.X) == ssa.Value(pos) || core.Unspill(cmp.Y) == ssa.Value(pos)) {
+						ok = true
+					}
+				}
+			}
+			if !ok && unguarded == "" {
+				unguarded = p.Pos(call.Pos())
+			}
+		}
+		if nT == 0 {
+			continue
+		}
+		c.R.Check(unguarded == "", "R06.22", "v2: the line-anchored notice patterns are applied only to words that start their line", p.Pos(fn.Pos()), fmt.Sprintf("%d pattern tests, each behind a test of the position of the buffer's first word", nT),
+			"the patterns are tested at "+unguarded+" whatever the position of the buffer's first word in its line ("+pos.Name()+"): the words behind the remainder of a hyphen-split word are taken for a line of their own, so a split in front of words that look like a notice removes the rest of the line from the text")
 	}
 }
